@@ -125,7 +125,7 @@ func registerResolver() {
 			world("HarnessC03", 1, 1, 1, 0, 1, 100), world("HarnessC03", 3, 1, 1, 11, 1, 100), world("HarnessC03", 1, 2, 0, 11, 0, 0), world("HarnessC03", 2, 1, 1, 11, 1, 100), world("HarnessC03", 0, 1, 0, 11, 9, 0), world("HarnessC03", 3, 1, 0, 91, 1, 100), world("HarnessC03", 1, 1, 1, 91, 1, 101), world("HarnessC03", 103, 0, 0, 0, 1, 100), world("HarnessC03", 1, 1, 2, 0, 1, 100), world("HarnessC03", 3, 1, 1, 11, 3, 101), world("HarnessC03", 1, 2, 0, 11, 0, 101), world("HarnessC03", 0, 1, 1, 11, 9, 0), world("HarnessC03", 3, 1, 0, 1111, 1, 0), world("HarnessC03", 3, 2, 1, 11, 1, 1), world("HarnessC03", 3, 1, 1, 91, 1, 101), world("HarnessC03", 2, 1, 1, 91, 1, 102), world("HarnessC03", 7, 1, 1, 1191, 1, 0), world("HarnessC03", 102, 0, 0, 0, 1, 100),
 		},
 		Covers:   []string{"C03.call-returned", "C03.with-distractor-converter"},
-		Bounds:   []string{"targets of 1-2 parameters, each with an exactly matching supplied value (assumed), plus <=2 distractor values and <=2 distractor converters with symbolic labels", "iteration order: exhaustive product of independent flips at the six order-sensitive range sites of path selection (sv=100), or perm(3)/flip (sv=101)"},
+		Bounds:   []string{"targets of 1-2 parameters, each with an exactly matching supplied value (assumed), plus <=2 distractor values and <=2 distractor converters with symbolic labels", "iteration order: exhaustive product of independent flips at the six order-sensitive range sites of path selection (sv=100), or perm(3)/flip (sv=101)", "shards marked so: the option spelling of every value is symbolic (incl. Typed after a nil and ValueSet.Args()); the target carries conflicting construction defaults; unnamed non-pointer types ([]int, [1]int)"},
 		Outside:  []string{"more distractors than listed", "iteration orders outside the named per-site policies", "interface-typed parameters (a supplied value always has a concrete type)"},
 		Assume:   common,
 		Anchored: resolverFns,
@@ -143,7 +143,7 @@ func registerResolver() {
 			world("HarnessC04", 0, 1, 1, 11, 9, 0), world("HarnessC04", 1, 1, 1, 1111, 1, 0), world("HarnessC04", 0, 1, 1, 1121, 0, 0), world("HarnessC04", 0, 1, 1, 12, 9, 0), world("HarnessC04", 1, 1, 1, 12, 1, 0), world("HarnessC04", 101, 0, 0, 0, 1, 0), world("HarnessC04", 106, 0, 0, 0, 1, 0), world("HarnessC04", 104, 0, 0, 0, 0, 0), world("HarnessC04", 0, 1, 1, 1211, 1, 0, 2), world("HarnessC04", 0, 2, 1, 1111, 1, 1), world("HarnessC04", 0, 1, 1, 111111, 1, 0), world("HarnessC04", 3, 1, 1, 11, 0, 0), world("HarnessC04", 3, 1, 0, 1111, 0, 0), world("HarnessC04", 0, 1, 2, 2111, 2, 0), world("HarnessC04", 3, 1, 1, 12, 1, 0), world("HarnessC04", 5, 1, 1, 211111, 0, 0), world("HarnessC04", 100, 0, 0, 0, 9, 0), world("HarnessC04", 102, 0, 0, 0, 9, 0, 2), world("HarnessC04", 101, 0, 0, 0, 9, 0, 2),
 		},
 		Covers:   []string{"C04.call-returned", "C04.converter-failed", "C04.target-failed", "C04.success"},
-		Bounds:   []string{"chains of up to 2 (quick) / 3 (thorough) converters with symbolic labels, each declaring a final error and failing symbolically; the target fails symbolically too", "error identity is Go pointer identity of distinct error objects"},
+		Bounds:   []string{"chains of up to 2 (quick) / 3 (thorough) converters with symbolic labels, each declaring a final error and failing symbolically; the target fails symbolically too", "error identity is Go pointer identity of distinct error objects; in the shards marked so the kind of error value is symbolic (pointer error, *ErrArgumentUnsatisfied, struct-valued error equal to the zero value of its type, one-element *multierror.Error) and the call goes through a function returned by Redefine"},
 		Outside:  []string{"more than 3 converters", "run-once converters (C11)"},
 		Assume:   common,
 		Anchored: append(resolverFns, "(*github.com/hashicorp/go-argmapper.Result).Err"),
@@ -158,7 +158,7 @@ func registerResolver() {
 			world("HarnessC05", 0, 1, 1, 11, 1, 102), world("HarnessC05", 0, 1, 1, 1111, 1, 0), world("HarnessC05", 1, 1, 1, 1111, 1, 1), world("HarnessC05", 0, 1, 1, 1121, 1, 0), world("HarnessC05", 101, 0, 0, 0, 9, 0, 2), world("HarnessC05", 104, 0, 0, 0, 0, 100, 2), world("HarnessC05", 106, 0, 0, 0, 1, 0, 2), world("HarnessC05", 5, 1, 1, 2111, 0, 0, 2), world("HarnessC05", 0, 1, 1, 91, 9, 0, 2), world("HarnessC05", 0, 1, 1, 1111, 1, 100), world("HarnessC05", 0, 1, 1, 111111, 1, 0), world("HarnessC05", 3, 1, 1, 11, 0, 0), world("HarnessC05", 3, 1, 0, 1111, 0, 0), world("HarnessC05", 0, 2, 1, 1111, 1, 2), world("HarnessC05", 4, 1, 1, 1111, 1, 0), world("HarnessC05", 5, 1, 2, 211111, 0, 0), world("HarnessC05", 5, 1, 1, 111111, 0, 0, 2), world("HarnessC05", 100, 0, 0, 0, 9, 0, 2), world("HarnessC05", 102, 0, 0, 0, 9, 0, 2), world("HarnessC05", 105, 0, 0, 0, 1, 100), world("HarnessC05", 105, 0, 0, 0, 9, 0),
 		},
 		Covers:   []string{"C05.gen-checked", "C05.shapes-checked", "C05.call-returned", "C05.derivable-world", "C05.converter-used", "C05.stability-checked"},
-		Bounds:   []string{"converter sets of up to 2 (quick) / 3 (thorough) converters with symbolic labels, including 2-cycles and bidirectional pairs (single-input) and acyclic 2-input converters", "stability: the same call repeated in one path under two independent iteration-order choices (per-site flips, or seeded vectors)"},
+		Bounds:   []string{"converter sets of up to 2 (quick) / 3 (thorough) converters with symbolic labels, including 2-cycles and bidirectional pairs (single-input) and acyclic 2-input converters", "stability: the same call repeated in one path under two independent iteration-order choices (per-site flips, or seeded vectors)", "statically declared parameter/result structs with the marker last / in the middle (HarnessShapes)", "converters produced by a name-sensitive ConverterGen, also from values that only supplied converters produce (HarnessC05Gen)"},
 		Outside:  []string{"more than 3 converters", "iteration orders outside the named policies"},
 		Assume:   common,
 		Anchored: resolverFns,
@@ -284,7 +284,7 @@ func registerResolver() {
 			sh("HarnessC17Once", "run-once function (struct form) used as a converter, then called directly twice", 0, 1), sh("HarnessC17Once", "run-once function (*struct form) used as a converter, then called directly twice", 0, 2),
 			sh("HarnessC17Once", "run-once function (positional form) used as a converter, then called directly twice", 0, 0), sh("HarnessC17Once", "run-once function (built form) used as a converter, then called directly twice", 0, 3)},
 		Covers:   []string{"C17.accessors-checked", "C17.final-error-checked", "C17.non-final-error-checked", "C17.concrete-error-type-is-an-output", "C17.resolution-failure-checked", "C17.once-checked", "C17.nil-pointer-struct-checked", "C17.final-non-error-interface-checked"},
-		Bounds:   []string{"all result arities 0..3 with result kinds drawn symbolically from {P0,P1,error,P2} (distinct), final slot none / error / concrete error type / interface{} / a non-error interface with error's method set (the last two nil or holding an error value), nil-ness of every error slot symbolic; positional and marker-struct results", "four resolution-failure scenarios"},
+		Bounds:   []string{"all result arities 0..3 with result kinds drawn symbolically from {P0,P1,error,P2} (distinct), final slot none / error / concrete error type / interface{} / a non-error interface with error's method set (the last two nil or holding an error value), nil-ness of every error slot symbolic; positional and marker-struct results; accessor order (Err/Out before Len) symbolic", "four resolution-failure scenarios; an unresolvable call of a run-once function that already holds a cached result"},
 		Outside:  []string{"more than 3 results before the final slot", "result lists repeating a type"},
 		Assume:   common,
 		Anchored: []string{"(*github.com/hashicorp/go-argmapper.Result).Err", "(*github.com/hashicorp/go-argmapper.Result).Len", "(*github.com/hashicorp/go-argmapper.Result).Out", "(*github.com/hashicorp/go-argmapper.Result).hasError", "(*github.com/hashicorp/go-argmapper.Func).callDirect"},
@@ -344,7 +344,7 @@ func registerResolver() {
 			sh("HarnessC11Par", "two goroutines calling the same target, run-once converter struct form, <=6 context switches", 0, 1, 0, 6), sh("HarnessC11Par", "target/Convert, run-once converter built form, <=6 context switches", 0, 3, 1, 6), sh("HarnessC11Par", "two goroutines, positional-result... *struct form, <=5 context switches", 0, 2, 0, 5),
 			sh("HarnessC11Within", "two needs within one call, struct form", 0, 1), sh("HarnessC11Within", "two needs within one call, built form", 0, 3), sh("HarnessC11Within", "two needs within one call, *struct form", 0, 2)),
 		Covers:   []string{"C11.target-checked", "C11.history-checked", "C11.later-use-checked", "C11.cached-error-checked", "C11.within-call-checked", "C11.par-checked"},
-		Bounds:   []string{"concurrent clause: two goroutines each performing one call that needs the shared run-once converter, all interleavings with <=3 (quick) / 6 (thorough) context switches (vnPar)", "sequential histories of <=3 (quick) / 5 (thorough) operations chosen symbolically from Call on two targets, Convert and Redefine, all needing one run-once converter (directly or through a second converter), fresh symbolic arguments per operation, symbolic failure of the first execution", "repeated needs within one call"},
+		Bounds:   []string{"concurrent clause: two goroutines each performing one call that needs the shared run-once converter, all interleavings with <=3 (quick) / 6 (thorough) context switches (vnPar)", "sequential histories of <=3 (quick) / 5 (thorough) operations chosen symbolically from Call on two targets, Convert and Redefine, all needing one run-once converter (directly or through a second converter), fresh symbolic arguments per operation, symbolic failure of the first execution", "repeated needs within one call", "the run-once function as the direct target of three calls: 0-2 outputs, with/without (failing) error result, all four forms, Output().FromResult between calls"},
 		Outside:  []string{"interleavings beyond two goroutines x one call each and beyond the stated number of context switches; handover only at mutex operations and at accesses to assigned fields of the shared objects", "histories longer than 5"},
 		Assume:   common,
 		Anchored: []string{"(*github.com/hashicorp/go-argmapper.Func).callDirect", "github.com/hashicorp/go-argmapper.FuncOnce"},
